@@ -42,7 +42,12 @@ Print Assumptions C04_live.
 Print Assumptions C04_alternate.
 Print Assumptions C04_after.
 Print Assumptions C04_precedence.
+(* a browser created later, on whatever cache the instance has by then (Proofs/C04_listen.v). Since the repair 8ab9054 (expired records are
+   reaped before a listener with questions is added) this needs no restriction on that cache: the property's carve-out "browsers created
+   while no expired-but-unpurged pointer record of their types is cached" is no longer needed - before the repair such a browser never
+   reported the instance (Example listen_stale_node_not_no_stale / listen_purges_stale; finding C07-expired-unpurged-browser) *)
 Check C04_live_listen.
 Check C04_alternate_listen.
+Check listen_purges_stale.
 Print Assumptions C04_live_listen.
 Print Assumptions C04_alternate_listen.
